@@ -150,6 +150,18 @@ func (m *Machine) RunCase(fnName string, s *Solver, opts Options) CaseResult {
 		syncMaps = map[*value][]syncMapEntry{}
 		mapOrder = map[uintptr][]value{}
 		symEntries = map[uintptr][]symKV{}
+		for _, p := range lazyDone {
+			// lazily initialised packages start each path uninitialised again
+			delete(i.allowInit, p)
+			if sp := i.prog.ImportedPackage(p); sp != nil && i.globals != nil {
+				for _, mem := range sp.Members {
+					if g, ok := mem.(*ssa.Global); ok {
+						*i.globals[g] = zero(mustDeref(g.Type()))
+					}
+				}
+			}
+		}
+		lazyDone = lazyDone[:0]
 		if i.globals == nil {
 			i.globals = make(map[*ssa.Global]*value)
 			for _, p := range i.prog.AllPackages() {
@@ -263,6 +275,9 @@ func isHarnessName(full string) bool {
 
 // ---- guard: globals of packages whose initialiser is not run ----
 
+var lazyInit = map[string]bool{"unicode": true}
+var lazyDone []string
+
 var initAssigned map[*ssa.Global]bool
 var GuardHits = map[string]int{}
 
@@ -312,6 +327,16 @@ func guardGlobal(i *interpreter, g *ssa.Global) {
 	}
 	name := g.Pkg.Pkg.Path() + "." + g.Name()
 	if zeroOK[name] {
+		return
+	}
+	if lazyInit[g.Pkg.Pkg.Path()] {
+		// a leaf package whose initialiser is too expensive to run on every path is initialised
+		// the first time one of its variables is read on a path
+		i.allowInit[g.Pkg.Pkg.Path()] = true
+		lazyDone = append(lazyDone, g.Pkg.Pkg.Path())
+		if f := g.Pkg.Func("init"); f != nil {
+			call(i, nil, token.NoPos, f, nil)
+		}
 		return
 	}
 	GuardHits[name]++
